@@ -76,6 +76,7 @@ type Peer struct {
 	priv crypto.PrivKey
 
 	blocks  map[string][]byte // cid key -> raw block
+	denied  map[string]bool   // blocks this peer cannot read for the moment (provider gone, disk error): Get fails
 	Effects []Effect
 	Caches  *SimCache
 
@@ -411,9 +412,30 @@ func (d *simDag) AddMany(ctx context.Context, ns []ipld.Node) error {
 	return nil
 }
 
+// Deny makes every read of the block fail on this peer until Allow is called.
+func (p *Peer) Deny(c cid.Cid) {
+	p.w.mu.Lock()
+	if p.denied == nil {
+		p.denied = map[string]bool{}
+	}
+	p.denied[bkey(c)] = true
+	p.w.mu.Unlock()
+}
+
+// Allow undoes Deny.
+func (p *Peer) Allow(c cid.Cid) {
+	p.w.mu.Lock()
+	delete(p.denied, bkey(c))
+	p.w.mu.Unlock()
+}
+
 func (d *simDag) Get(ctx context.Context, c cid.Cid) (ipld.Node, error) {
 	p, w := d.p, d.p.w
 	w.mu.Lock()
+	if p.denied[bkey(c)] {
+		w.mu.Unlock()
+		return nil, fmt.Errorf("block %s is not available", c)
+	}
 	if data, ok := p.blocks[bkey(c)]; ok {
 		w.mu.Unlock()
 		// a local read: a gate point for the driver too (a slow disk); a read under a context that is done fails
